@@ -49,3 +49,28 @@ def bcast_index(shape, full_shape, idx):
     nd = len(shape)
     sub = idx[len(full_shape) - nd:]
     return tuple(0 if shape[i] == 1 else sub[i] for i in range(nd))
+
+
+# ----------------------------------------------------------------------------- machine-checked lemmas (Lean 4 + Mathlib)
+LEMMAS = {
+    'rayleigh': dict(
+        file='lean/Rayleigh.lean', theorems=['rayleigh_le', 'rayleigh_attained', 'gen_rayleigh_le'],
+        statement='eigh contract (V^H V = 1, A V = V diag w) => Re(x^H A x) <= w_max x^H x, attained by the column of w_max; '
+                  'generalised: V^H B V = 1, A V = B V diag w => Re(x^H A x) <= w_max Re(x^H B x)   (all dimensions)',
+        assumptions=['the contract of the eigen-solver (unitary / B-orthonormal eigenvectors, A V = [B] V diag w) is assumed, not proved']),
+    'mvdr': dict(
+        file='lean/Mvdr.lean', theorems=['mvdr_optimal'],
+        statement='Phi PSD, Phi w0 = k a, w0^H a = 1, w^H a = 1  =>  Re(w0^H Phi w0) <= Re(w^H Phi w)   (all dimensions)'),
+    'psd': dict(
+        file='lean/Psd.lean', theorems=['quad_weighted_outer', 'weighted_outer_posSemidef'],
+        statement='m_t >= 0  =>  sum_t m_t x_t x_t^H is Hermitian positive semidefinite; v^H (sum_t m_t x_t x_t^H) v = sum_t m_t |v^H x_t|^2   (all D, T)'),
+    'logdet': dict(
+        file='lean/LogDet.lean', theorems=['det_cholesky', 'log_det_cholesky'],
+        statement='L lower triangular with positive diagonal  =>  log det(L L^T) = 2 sum_i log L_ii   (all dimensions)'),
+}
+
+
+def lemma_instance(prop, which, func):
+    spec = LEMMAS[which]
+    return Instance(prop, func, 'lean-lemma-%s' % which, None, None, None, mode='lemma', lemma=spec, crosscheck=False, frame=False,
+                    tags=('lemma',))
